@@ -344,6 +344,20 @@ func (c *typeCollector) exprPhrase(expr *Expr) phrase {
 		return c.exprPhrase(expr.Sub[0])
 	case Optional, List:
 		p := c.exprPhrase(expr.Sub[0])
+		if expr.Kind == List && len(expr.Sub) > 1 {
+			// Reported separators show up between the elements (zero or more times).
+			if sep := c.exprPhrase(expr.Sub[1]); len(sep.fields) > 0 {
+				fields := make([]*field, 0, len(sep.fields))
+				for _, f := range sep.fields {
+					clone := *f
+					clone.nullable = true
+					fields = append(fields, &clone)
+				}
+				sep.fields = fields
+				p = concatPhrases([]phrase{p, sep}, expr)
+				p.ordered = false
+			}
+		}
 		var out []*field
 		for _, f := range p.fields {
 			clone := *f
